@@ -167,29 +167,18 @@ def parse_num_expr(expr, env=None):
     return v[0]
 
 
-CONST_RULES = [
-    # (lean name, file, C++ identifier regex (first match wins), kind)
-    ("theta_RESIZE_THRESHOLD", "theta/include/theta_update_sketch_base.hpp", r"RESIZE_THRESHOLD", "rat"),
-    ("theta_REBUILD_THRESHOLD", "theta/include/theta_update_sketch_base.hpp", r"REBUILD_THRESHOLD", "rat"),
-    ("theta_STRIDE_HASH_BITS", "theta/include/theta_update_sketch_base.hpp", r"STRIDE_HASH_BITS", "nat"),
-    ("theta_MIN_LG_K", "theta/include/theta_constants.hpp", r"MIN_LG_K", "nat"),
-    ("theta_MAX_LG_K", "theta/include/theta_constants.hpp", r"MAX_LG_K", "nat"),
-    ("theta_DEFAULT_LG_K", "theta/include/theta_constants.hpp", r"DEFAULT_LG_K", "nat"),
-    ("theta_MAX_THETA", "theta/include/theta_constants.hpp", r"MAX_THETA", "nat"),
-    ("DEFAULT_SEED", "common/include/common_defs.hpp", r"DEFAULT_SEED", "nat"),
-]
-
-
 def find_const(src, ident):
     """value expression of `... IDENT = expr;` (first declaration)."""
     m = re.search(r"\b%s\s*=\s*([^;]+);" % ident, src)
     return m.group(1).strip() if m else None
 
 
-def gen_consts(repo, extra_rules=()):
-    out = ["/- GENERATED by tools/translate.py from /repo's headers on every run. Do not edit. -/", "namespace DSGen", ""]
+def gen_consts(repo, rules, header=""):
+    """rules: (lean name, file, C++ identifier, kind in nat|rat|int) -> Lean source of a `namespace DSGen` block."""
+    out = ["/- GENERATED by tools/translate.py from /repo's headers on every run. Do not edit. -/", header, "namespace DSGen", ""]
     cache = {}
-    for name, rel, ident, kind in list(CONST_RULES) + list(extra_rules):
+    env = {}
+    for name, rel, ident, kind in rules:
         if rel not in cache:
             cache[rel] = strip_comments(read(repo, rel))
         expr = find_const(cache[rel], ident)
@@ -197,10 +186,11 @@ def gen_consts(repo, extra_rules=()):
             fail("constant %s not found in %s" % (ident, rel))
             continue
         try:
-            v = parse_num_expr(expr)
+            v = parse_num_expr(expr, env)
         except ValueError as ex:
             fail("%s in %s: %s" % (ident, rel, ex))
             continue
+        env[ident] = v
         if kind == "nat":
             if v.denominator != 1 or v < 0:
                 fail("%s in %s: expected a natural number, got %s" % (ident, rel, v))
@@ -216,29 +206,49 @@ def gen_consts(repo, extra_rules=()):
 
 
 def main():
+    """Each tools/trules/<family>.py defines `generate(repo, T) -> {filename: content}` (T = this module).
+    A family whose generation fails gets no files rewritten and is listed in DSGen/_status.json, so only
+    the checks depending on that family see the broken tie."""
+    import importlib.util, json, glob
     ap = argparse.ArgumentParser()
     ap.add_argument("--repo", default="/repo")
     ap.add_argument("--out", required=True)
+    ap.add_argument("--family", default=None)
     a = ap.parse_args()
-    files = {}
-    files["Consts.lean"] = gen_consts(a.repo, EXTRA_CONST_RULES)
-    for gen_fn in EXTRA_GENERATORS:
-        files.update(gen_fn(a.repo))
-    if FAIL:
-        print("TRANSLATION FAILURE")
-        for f in FAIL:
-            print("  " + f)
-        return 1
-    changed = [n for n, c in files.items() if write_if_changed(os.path.join(a.out, n), c)]
-    # umbrella module
-    umb = "".join("import DSGen.%s\n" % n[:-5] for n in sorted(files))
-    write_if_changed(os.path.join(os.path.dirname(a.out.rstrip("/")), "DSGen.lean"), umb)
-    print("translate: %d files, %d changed %s" % (len(files), len(changed), changed))
-    return 0
+    me = sys.modules[__name__]
+    status = {}
+    rc = 0
+    nfiles = nchanged = 0
+    for rf in sorted(glob.glob(os.path.join(os.path.dirname(os.path.abspath(__file__)), "trules", "*.py"))):
+        fam = os.path.basename(rf)[:-3]
+        if fam.startswith("_") or (a.family and fam != a.family):
+            continue
+        del FAIL[:]
+        try:
+            spec = importlib.util.spec_from_file_location("trules_" + fam, rf)
+            mod = importlib.util.module_from_spec(spec)
+            spec.loader.exec_module(mod)
+            files = mod.generate(a.repo, me)
+        except Exception as ex:
+            fail("translator exception in family %s: %r" % (fam, ex))
+            files = {}
+        if FAIL:
+            status[fam] = dict(ok=False, errors=list(FAIL))
+            print("TRANSLATION FAILURE family=%s" % fam)
+            for f in FAIL:
+                print("  " + f)
+            rc = 1
+            continue
+        status[fam] = dict(ok=True, files=sorted(files))
+        for n, c in files.items():
+            nfiles += 1
+            if write_if_changed(os.path.join(a.out, n), c):
+                nchanged += 1
+    if not a.family:
+        write_if_changed(os.path.join(a.out, "_status.json"), json.dumps(status, indent=1, sort_keys=True))
+    print("translate: %d files, %d changed" % (nfiles, nchanged))
+    return rc
 
-
-EXTRA_CONST_RULES = []
-EXTRA_GENERATORS = []
 
 if __name__ == "__main__":
     sys.exit(main())
